@@ -124,8 +124,47 @@ func (v *Validator) typeOfValue(val types.Value) (cedarType, error) {
 	case types.String:
 		return typeString{}, nil
 	case types.EntityUID:
+		return v.typeOfEntityUID(val)
+	case types.Decimal:
+		return typeExtension{"decimal"}, nil
+	case types.IPAddr:
+		return typeExtension{"ipaddr"}, nil
+	case types.Datetime:
+		return typeExtension{"datetime"}, nil
+	case types.Duration:
+		return typeExtension{"duration"}, nil
+	case types.Set:
+		if v.strict && val.Len() == 0 {
+			return nil, fmt.Errorf("empty set literals are forbidden in policies")
+		}
+		var elem cedarType = typeNever{}
+		for e := range val.All() {
+			et, err := v.typeOfValue(e)
+			if err != nil {
+				return nil, err
+			}
+			if err := v.checkStrictEntityLUB(elem, et); err != nil {
+				return nil, typeIncompatErr(elem, et)
+			}
+			lub, err := v.leastUpperBound(elem, et)
+			if err != nil {
+				return nil, typeIncompatErr(elem, et)
+			}
+			elem = lub
+		}
+		return typeSet{element: elem}, nil
+	case types.Record:
+		attrs := make(map[types.String]attributeType, val.Len())
+		for k, e := range val.All() {
+			et, err := v.typeOfValue(e)
+			if err != nil {
+				return nil, err
+			}
+			attrs[k] = attributeType{typ: et, required: true}
+		}
+		return typeRecord{attrs: attrs}, nil
 	}
-	return v.typeOfEntityUID(val.(types.EntityUID))
+	return nil, fmt.Errorf("unsupported literal of type %T", val)
 }
 
 func (v *Validator) typeOfEntityUID(uid types.EntityUID) (cedarType, error) {
